@@ -15,6 +15,8 @@ PROOF_MODULES = ['OsloProofs.Props.C05']
 LEVEL = 'proof'
 RULE = ('(format, bytes, chunking) triples, observed after every chunk: hostile headers (VMDK descriptor sector counts up '
         'to 2^64-1, VHDX item lengths up to 2^32-1, table counts 2047/2048/65535, metadata and item pointers everywhere), '
+        'a generic sweep of every 4-byte field of every header structure of every format (0, 0xFFFFFFF8, 0x00100000, '
+        '0xFFFFFFFF in both byte orders) followed by a tail longer than the bound, '
         'well-formed and field-mutated images of all ten layouts, pure text, random data and streams longer than the bound '
         '(multi-MiB in the thorough tier), x one giant chunk, fixed sizes, cuts at the structure boundaries, random '
         'compositions.  A case is non-trivial when the stream is cut into at least two non-empty chunks and at least one '
@@ -206,6 +208,66 @@ def check_image(ctx, img, fam, fails):
     return False
 
 
+def peak_of(fmt, data, sizes):
+    """(largest retained sum, True when some region announces a negative length or one above the bound)"""
+    odd = [False]
+    best = [0]
+
+    def every(i, pos):
+        best[0] = max(best[0], sum(i.context_info.values()))
+        for r in i._capture_regions.values():
+            if r.length < 0 or r.length > G.bound(fmt):
+                odd[0] = True
+    insp = G.impl_run(fmt, data, sizes, every_chunk=every)[2]
+    best[0] = max(best[0], sum(insp.context_info.values()))
+    return best[0], odd[0]
+
+
+SCREEN_TAIL = 64 * G.K
+
+
+def field_sweep(ctx, rng, fails, full):
+    """generic hostile family: for every format the clean image with each 4-byte-aligned field of its header
+    structures overwritten, one at a time, by 0 / 0xFFFFFFF8 / 0x00100000 / 0xFFFFFFFF (both byte orders),
+    followed by a tail longer than the bound, under {one giant chunk, 64 KiB chunks, 512 bytes then the rest}.
+    Every (field, value) pair is first screened with a 64 KiB tail (cheap): a pair that makes the inspector
+    retain noticeably more than the clean image does, or announce an out-of-range region length, always gets the
+    long tail; of the others a sample (quick) or all (thorough)."""
+    for fmt in G.FORMATS:
+        lim = G.bound(fmt)
+        long_tail = (2 << 20) + 64 * G.K if fmt == 'vmdk' else 768 * G.K
+        for base in G.sweep_bases(fmt):
+            def shapes(n):
+                return [('one', [n]), ('512+rest', [512, n - 512]), ('fixed65536', G.fixed(n, 65536))]
+            clean = base.stream(None, SCREEN_TAIL)
+            clean_peak = {tag: peak_of(fmt, clean, sz)[0] for tag, sz in shapes(len(clean))[:2]}
+            flagged, plain = [], []
+            for field in base.fields():
+                data = base.stream(field, SCREEN_TAIL)
+                hit = False
+                for tag, sz in shapes(len(data))[:2]:
+                    ctx.evaluations += 1
+                    pk, odd = peak_of(fmt, data, sz)
+                    if odd or pk > clean_peak[tag] + 16 * G.K:
+                        hit = True
+                        break
+                (flagged if hit else plain).append(field)
+            ctx.count('search/sweep/%s/fields-screened' % base.name, len(flagged) + len(plain))
+            ctx.count('search/sweep/%s/fields-flagged' % base.name, len(flagged))
+            todo = flagged[:60 if ctx.quick else 400]
+            k = (30 if not full else 80) if ctx.quick else len(plain)
+            todo += rng.sample(plain, min(k, len(plain)))
+            for field in todo:
+                part, off, v = field
+                data = base.stream(field, long_tail)
+                img = G.Img(fmt, data, [], 'sweep/%s/%s+%d=%s' % (base.name, part, off, v.hex()))
+                ctx.count('search/sweep/%s/long-tail-runs' % base.name)
+                if check_image(ctx, img, shapes(len(data)), fails):
+                    break                      # one failing input per base is enough
+            if len(fails) >= 5:
+                return
+
+
 def search(ctx, seeds, full=False):
     rng = ctx.rng
     fails = []
@@ -218,6 +280,9 @@ def search(ctx, seeds, full=False):
         check_image(ctx, ext, c05_family(ext, rng, ctx.quick, False), fails)
         if len(fails) >= 5:
             return fails
+    field_sweep(ctx, rng, fails, full)
+    if len(fails) >= 5:
+        return fails
     rounds = (2 if full else 1) if ctx.quick else (5 if full else 4)
     for _ in range(rounds):
         for img in c05_images(ctx, rng, for_search=True):
